@@ -402,6 +402,33 @@ func c15Retry(c *Ctx, dr *ssa.Function, ra, rb, rc string) {
 			c.Check(okCtx, rc, fmt.Sprintf("%s wait#%d cancellable", fname, nWait), p.Pos(u.Pos()), "backoff wait ends on timeout or caller cancellation", "backoff wait does not observe the caller's context (cancellation is not prompt)")
 		}
 	}
+	// select-based waits: some case must receive from a channel tied to the caller's context
+	for _, b := range dr.Blocks {
+		for _, in := range b.Instrs {
+			sel, ok := in.(*ssa.Select)
+			if !ok || !sel.Blocking {
+				continue
+			}
+			nWait++
+			cancellable := false
+			for _, st := range sel.States {
+				if dependsOn(st.Chan, func(x ssa.Value) bool {
+					call, ok := x.(*ssa.Call)
+					if !ok || p.calleeName(call.Common()) != "(context.Context).Done" {
+						return false
+					}
+					return dependsOn(call.Common().Value, baseCtx)
+				}) {
+					cancellable = true
+				}
+			}
+			c.Check(cancellable, rc, fmt.Sprintf("%s wait#%d cancellable", fname, nWait), p.Pos(sel.Pos()), "backoff select includes the caller's Done channel", "backoff wait does not observe the caller's context (cancellation is not prompt)")
+			delc := passEdges(dr, errNil)
+			pred := map[int]int{}
+			bad := reachableAfter(dr, sel, att, delc, pred)
+			c.Check(!bad, rc, fmt.Sprintf("%s wait#%d then-cancel-check", fname, nWait), p.Pos(sel.Pos()), "request context re-checked after the backoff wait", "after the backoff wait the next attempt starts without checking that the caller's context is still live", p.witness(dr, pred, ab.Index)...)
+		}
+	}
 	if nWait == 0 {
 		// time.Sleep-style waits are not cancellable
 		for _, ci := range p.callsIn(dr, "time.Sleep") {
@@ -678,6 +705,55 @@ func c15Handler(c *Ctx, rd, re, rf string) {
 		}
 	}
 	c.Check(usageTrue && retryFalseInUsage, re, fname+" KeyUsageError arm", p.Pos(sh.Pos()), "KeyUsageError sets Usage=true, Retryable=false", "the KeyUsageError arm does not mark the reply as a non-retryable usage error")
+
+	// the classification above switches on the dynamic type of the error (TypeAssert, not
+	// errors.As): handle must therefore return token errors unwrapped
+	usesTypeSwitch := false
+	var handleErr ssa.Value
+	for _, ci := range p.callsIn(sh, "(*cmdline/workercmd.handler).handle") {
+		handleErr = errValueOf(ci)
+	}
+	if handleErr != nil {
+		for _, r := range *handleErr.Referrers() {
+			if _, ok := r.(*ssa.TypeAssert); ok {
+				usesTypeSwitch = true
+			}
+		}
+	}
+	if hh := p.Func("cmdline/workercmd.(*handler).handle"); hh != nil && usesTypeSwitch {
+		tokenErr := func(v ssa.Value) bool {
+			call, idx := resultOf(v)
+			if call == nil {
+				return false
+			}
+			ei := errResultIndex(call.Common().Signature())
+			if ei < 0 || !(idx == ei || (idx < 0 && call.Common().Signature().Results().Len() == 1)) {
+				return false
+			}
+			switch p.calleeName(call.Common()) {
+			case "(*token/tokencache.Cache).GetKey", "(token.Key).SignContext", "(*token/tokencache.Cache).Ping", "(token.Token).Ping", "(token.Token).GetKey", "(crypto.Signer).Sign":
+				return true
+			}
+			return false
+		}
+		n := 0
+		for _, r := range returnsOf(hh) {
+			ev := retVal(r, 1)
+			if isNilConst(ev) {
+				continue
+			}
+			for _, lf := range phiLeaves(ev, r.Block(), map[*ssa.Phi]bool{}) {
+				if isNilConst(lf.V) || tokenErr(lf.V) {
+					continue
+				}
+				// anything else must not be derived from a token error
+				wraps := dependsOn(lf.V, tokenErr)
+				n++
+				c.Check(!wraps, re, fmt.Sprintf("%s returns token errors unwrapped#%d", p.FName(hh), n), p.Pos(r.Pos()), "not derived from a token error", "a token error is wrapped before ServeHTTP classifies it by dynamic type: key-usage / fatal / permanent classification is lost and the failure becomes retryable")
+			}
+		}
+		c.Pass(re, p.FName(hh)+" error identity preserved for the type switch", p.Pos(hh.Pos()), "ServeHTTP classifies by type switch; handle returns token errors as they are")
+	}
 
 	// handle(): WithKeyID installed when rr.KeyID != nil, before any token call
 	h := p.Func("cmdline/workercmd.(*handler).handle")
